@@ -135,6 +135,10 @@ def run(case, ctx):
     for i, t in enumerate(Ts):
         mon.TRACER.protect(t, f"T{i}")
     used = {}
+    # the caller keeps one wrapped document and validates it again after every addition
+    Dshared = valida.Data(M.deep_copy(doc))
+    for S_ in Ss:
+        call(S_.validate, Dshared)
     for n, (si, ti, rterm) in enumerate(case["adds"]):
         si, ti = si % len(Ss), ti % len(Ts)
         R = build.path_obj(rterm)
@@ -173,6 +177,11 @@ def run(case, ctx):
             return
         if mb is not None and b != mb:
             ctx.violate(f"C18/behaviour/{tag}", f"after addition #{n}: S.validate gives {str(b)[:300]}\n model {str(mb)[:300]}")
+            return
+        okd, vdd = call(Ss[si].validate, Dshared)
+        if okd and mb is not None and (vdd.is_valid, vdd.num_failures, vdd.num_rules_tested) != mb[:3]:
+            ctx.violate(f"C18/stale-verdict/{tag}", f"after addition #{n}: validating the same Data object as before the addition gives "
+                        f"{(vdd.is_valid, vdd.num_failures, vdd.num_rules_tested)}, the schema now demands {mb[:3]}")
             return
         if beh(Ts[ti], doc) != behT[ti]:
             ctx.violate(f"C18/T-behaviour/{tag}", f"the added schema validates differently after addition #{n}")
